@@ -117,9 +117,9 @@ def run(ctx):
     # finding candidate (outside the theorems' hypotheses): replay of the Lean witness
     # nil_iff_no_alive_full_fails on the real code = first scenario of stream c15oob.
     oo, oi = read_lines(os.path.join(ctx.out, "c15oob.ops")), read_lines(os.path.join(ctx.out, "c15oob.impl"))
-    wit = list(zip(oo[:7], oi[:7]))
-    reproduced = (len(wit) == 7 and wit[5][0].startswith("sample 2 0") and " len=1 " in (" " + wit[5][1]) and "best=nil" in wit[5][1]
-                  and wit[6][0].startswith("sel t 4") and wit[6][1] == "err=noalive")
+    wit = list(zip(oo[:6], oi[:6]))
+    reproduced = (len(wit) == 6 and wit[4][0].startswith("sample 2 0") and " len=1 " in (" " + wit[4][1]) and "best=nil" in wit[4][1]
+                  and wit[5][0].startswith("sel t 4") and wit[5][1] == "err=noalive")
     n_sentinel = sum(1 for l in oi for part in l.split(" | ") if " inv=110" in part)
     ctx.cov["finding_candidates"] = {SENTINEL_KEY: {"reproduced_on_real_code": reproduced, "witness": wit,
                                                     "oob_lines_with_alive_but_nil_best": n_sentinel}}
@@ -127,7 +127,7 @@ def run(ctx):
         what = ("a node whose sorting latency (measurement + add_latency) reaches time.Hour is alive but never selectable: "
                 "group {n0 [add_latency: 1h], n1}, n1 dead for tcp4, n0 probed OK -> Len()=1, GetMinLatency=nil, Select=ErrNoAliveDialer")
         if any(k.get("kind") == "open" and k.get("key") == SENTINEL_KEY for k in ctx.known):
-            ctx.report(what, {"stream": "c15oob", "ops": oo[:7], "impl": oi[:7]}, key=SENTINEL_KEY)
+            ctx.report(what, {"stream": "c15oob", "ops": oo[:6], "impl": oi[:6]}, key=SENTINEL_KEY)
         else:
             ctx.say("FINDING-CANDIDATE (outside the proved hypotheses, not gating) key=%s: %s" % (SENTINEL_KEY, what))
     stats = json.load(open(os.path.join(ctx.out, "c15.stats.json")))
